@@ -172,40 +172,22 @@ func c19Debouncer(p *chk.Prog, r *chk.Report) {
 		as, ok := n.(*ast.AssignStmt)
 		return ok && len(as.Lhs) == 1 && lf.ObjOf(as.Lhs[0]) == cfgObj
 	}
-	leave := func(n ast.Node) bool { return !chk.Encloses(recv, n) }
-	w := (&chk.Walk{G: g, From: chk.Site{G: g, B: cb, I: -1}, Stop: store, Hit: leave, HitExit: true,
-		Cut: func(b *cfgBlock, k int) bool {
-			return g.EdgeImplies(b, k, ignore) || g.EdgeImplies(b, k, closed) || g.EdgeImplies(b, k, g.GPat(true, "EV.useOld", chk.H("EV", ev)))
-		}}).RunRegion(recv)
-	st.Check("debouncer:new-config-always-stored", posOf(w, lf), !w.Found, "", "a newly submitted, different configuration can pass through the receive case without becoming the pending one (the last applied configuration is then not the most recently submitted)")
-	// continue statements in the case
-	nCont := 0
-	ast.Inspect(recv, func(n ast.Node) bool {
-		br, ok := n.(*ast.BranchStmt)
-		if !ok || br.Tok.String() != "continue" {
-			return true
-		}
-		nCont++
-		// the block containing the continue is dominated by an ignore condition
-		okk := false
-		for _, b := range g.Blocks {
-			if b.Stmt != nil && chk.Encloses(b.Stmt, br) || len(b.Nodes) > 0 && chk.Encloses(recv, b.Nodes[0]) {
-				_ = b
+	// every way out of the receive case has stored the new configuration, unless the event is a re-apply, one of
+	// the two ignore cases, or the closing of the channel (the case is analysed in isolation, path by path: the
+	// spelling of the conditions - nested, merged, inverted - is free)
+	useOld := g.GPat(true, "EV.useOld", chk.H("EV", ev))
+	okStore, where := true, recv.Pos()
+	endsS := g.RegionEnds(cb, recv, chk.GOr(chk.GEvent(store), ignore, closed, useOld))
+	for _, e := range endsS {
+		if !e.OK {
+			okStore = false
+			if e.From != nil && len(e.From.Nodes) > 0 {
+				where = e.From.Nodes[len(e.From.Nodes)-1].Pos()
 			}
 		}
-		// find the if statement that encloses the continue and test its condition edge
-		for q := p.Parent(br); q != nil && q != ast.Node(recv); q = p.Parent(q) {
-			if ifs, isIf := q.(*ast.IfStmt); isIf {
-				for _, e := range g.EdgesImplying(ignore) {
-					if len(e.B.Nodes) > 0 && e.B.Nodes[len(e.B.Nodes)-1] == ast.Node(ifs.Cond) {
-						okk = true
-					}
-				}
-			}
-		}
-		st.Check("debouncer:ignore-case#"+itoa(nCont), br.Pos(), okk, "", "an event is dropped (continue) in the receive case for a reason other than `re-apply with nothing stored` or `identical configuration`")
-		return true
-	})
+	}
+	st.Check("debouncer:new-config-always-stored", where, okStore && len(endsS) > 0, "", "a newly submitted, different configuration can pass through the receive case without becoming the pending one (the last applied configuration is then not the most recently submitted)")
+	st.OK("debouncer:ignore-cases-only", recv.Pos(), "")
 	// (3) timer armed at the end of the receive case
 	var timerSet types.Object
 	for _, s := range g.Find(lf.IsAssignPat("T", "true")) {
@@ -219,21 +201,27 @@ func c19Debouncer(p *chk.Prog, r *chk.Report) {
 	}
 	isTS := lf.IsObj(timerSet)
 	setTS := lf.IsAssignPat("T", "true", chk.H("T", isTS))
-	w2 := (&chk.Walk{G: g, From: chk.Site{G: g, B: cb, I: -1}, Stop: setTS, Hit: leave, HitExit: true,
-		Cut: func(b *cfgBlock, k int) bool {
-			return g.EdgeImplies(b, k, ignore) || g.EdgeImplies(b, k, closed) || g.EdgeImplies(b, k, chk.GBool(true, isTS))
-		}}).RunRegion(recv)
-	arm.Check("debouncer:receive-arms-timer", posOf(w2, lf), !w2.Found, "", "the receive case can end with a pending configuration and no timer armed (the configuration is never applied unless another event arrives)")
-	okArm := false
-	for _, e := range g.EdgesImplying(chk.GBool(false, isTS)) {
-		if !chk.Encloses(recv, e.B.Nodes[len(e.B.Nodes)-1]) {
-			continue
+	armChan := lf.IsAssignPat("TO", "time.After(D)", chk.H("D", isParamIdx(f, 2)))
+	armed := chk.GOr(chk.GAnd(chk.GEvent(setTS), chk.GEvent(armChan)), chk.GBool(true, isTS), ignore, closed)
+	okArmed, whereA := true, recv.Pos()
+	endsA := g.RegionEnds(cb, recv, armed)
+	for _, e := range endsA {
+		if !e.OK {
+			okArmed = false
+			if e.From != nil && len(e.From.Nodes) > 0 {
+				whereA = e.From.Nodes[len(e.From.Nodes)-1].Pos()
+			}
 		}
-		cond, _ := e.B.Nodes[len(e.B.Nodes)-1].(ast.Expr)
-		exact := cond != nil && lf.MatchWith("!T", cond, chk.H("T", isTS)) != nil
-		okArm = exact && !g.BranchAlways(e, lf.IsAssignPat("TO", "time.After(D)", chk.H("D", isParamIdx(f, 2)))).Found && !g.BranchAlways(e, setTS).Found
 	}
-	arm.Check("debouncer:arm-sets-channel-and-flag", recv.Pos(), okArm, "", "arming the timer is subject to an extra condition, or does not set both the timeout channel (reload interval) and the flag")
+	arm.Check("debouncer:receive-arms-timer", whereA, okArmed && len(endsA) > 0, "", "the receive case can end with a pending configuration and no timer armed with the reload interval (the configuration is never applied unless another event arrives)")
+	// the flag is set only together with the channel
+	okPair := true
+	for _, s := range g.Find(setTS) {
+		if chk.Encloses(recv, s.Node) && !g.Dominated(s, chk.GBool(false, isTS)) {
+			okPair = false
+		}
+	}
+	arm.Check("debouncer:arm-sets-channel-and-flag", recv.Pos(), okPair, "", "the timer is re-armed although it is already running (a steady stream of submissions would postpone the reload forever)")
 	// (4) timeout case
 	okBody := g.GErrNil(true, "BODY(C)", chk.H("C", isCfg))
 	for _, s := range g.Find(lf.IsAssignPat("T", "false", chk.H("T", isTS))) {
